@@ -137,6 +137,14 @@ def constructed(ctx):
         else:
             ssalt.append(ln)
     out.append(("disulfide-in-altA-only", C.join(ssalt)))
+    # two residues of the same ionizable type that differ in the insertion code only (GLU 97 / GLU 97A): as a single
+    # conformation and as two identical models - each twin is averaged with itself, not with its neighbour
+    for k_, (src_, lines_, a1_, a2_) in enumerate(C.adjacent_same_type()[1:3]):
+        tw_ = C.make_twins(lines_, a1_, a2_)
+        out.append((f"same-type-twins-{src_}-{a1_[1]}", C.join(tw_ + [C.TER])))
+        body_ = C.join(tw_ + [C.TER]).replace("END\n", "")
+        out.append((f"same-type-twins-{src_}-{a1_[1]}-two-models",
+                    "MODEL        1\n" + "\n".join(tw_) + "\nTER   \nENDMDL\nMODEL        2\n" + "\n".join(tw_) + "\nTER   \nENDMDL\nEND\n"))
     # whole terminal residues in two alternate locations (their N / OXT atoms carry alt-loc labels too)
     ft = C.chain_lines("1FTJ-Chain-A", "A", 0, 5)
     out.append(("nterm-residue-altAB", C.join(C.add_altloc(ft, ids_of(ft)[0], delta=(400, 300, -200), backbone=()) + [C.TER])))
@@ -175,6 +183,26 @@ def constructed(ctx):
         return res
     out.append(("mutant-A-ASP-B-ASN", C.join(mutant("ASP", "ASN") + [C.TER])))
     out.append(("mutant-A-ASN-B-ASP", C.join(mutant("ASN", "ASP") + [C.TER])))
+    # ... with a third conformation that has no atoms of its own at the mutated position: another residue has three
+    # alternate locations (completion may take the position from one donor conformation, not from two)
+    other = [r_ for r_ in ids if r_ != asp and any(C.resid(ln) == r_ and ln[12:16].strip() == "CG" for ln in frag)][0]
+    out.append(("mutant-A-ASP-B-ASN+altABC-elsewhere",
+                C.join(C.add_altloc(mutant("ASP", "ASN"), other, delta=(250, 150, -200), labels=("A", "B", "C")) + [C.TER])))
+    out.append(("mutant-B-ASP-C-ASN+altABC-elsewhere",
+                C.join([ln[:16] + {"A": "B", "B": "C"}[ln[16]] + ln[17:] if (C.is_atom(ln) and C.resid(ln) == asp) else ln
+                        for ln in C.add_altloc(mutant("ASP", "ASN"), other, delta=(250, 150, -200), labels=("A", "B", "C"))] + [C.TER])))
+    # ... as three models: ASP, ASN, and a model in which the residue is not modelled at all
+    def _model(variant):
+        res = []
+        for ln in mutant("ASP", "ASN"):
+            if C.is_atom(ln) and C.resid(ln) == asp:
+                if variant is None or ln[16] != variant:
+                    continue
+                ln = ln[:16] + " " + ln[17:]
+            res.append(ln)
+        return "\n".join(res + [C.TER])
+    out.append(("models-ASP-ASN-unmodelled", "".join(f"MODEL     {m:4d}\n{_model(v)}\nENDMDL\n" for m, v in ((1, "A"), (2, "B"), (3, None))) + "END\n"))
+    out.append(("models-unmodelled-ASN-ASP", "".join(f"MODEL     {m:4d}\n{_model(v)}\nENDMDL\n" for m, v in ((1, None), (2, "B"), (3, "A"))) + "END\n"))
     # identical models
     body = "\n".join(frag + [C.TER])
     out.append(("identical-models-1-2", f"MODEL        1\n{body}\nENDMDL\nMODEL        2\n{body}\nENDMDL\nEND\n"))
